@@ -164,6 +164,13 @@ def check_file(case, ctx):
         else:
             for x, r in zip(want, recs):
                 el = {s: n for s, n in x['elements'] if n > 0}
+                need = ('name', 'phase', 'elements', 'a_low', 'a_high', 'T_low', 'T_mid', 'T_high')
+                if any(k_ not in r for k_ in need):
+                    # the reference reader reported the malformed field itself (a 'layout' failure above)
+                    if not ctx.failures:
+                        ctx.fail('C05.file/layout:record-incomplete', '%s: fields %r not readable at their columns' % (
+                            x['name'], [k_ for k_ in need if k_ not in r]))
+                    break
                 if r['name'] != x['name'] or r['phase'] != x['phase'] or r['elements'] != el:
                     ctx.fail('C05.file/layout:line1-fields', 'wrote %r %r %r, columns hold %r %r %r' % (
                         x['name'], x['phase'], el, r['name'], r['phase'], r['elements']))
